@@ -103,6 +103,27 @@ def design_check(name, module, cfg, workers=8, timeout=900, heap="8g", coverage=
             "depth": int(depth.group(1)) if depth else 0, "wall_s": round(wall, 1)}
 
 
+def apalache_inductive(spec, timeout=3000):
+    """Unbounded safety of a small model: Apalache checks that IndInv is inductive
+    (Init => IndInv; IndInit /\ Next => IndInv', IndInit = an arbitrary IndInv state) and that
+    IndInv implies Safety. Any failure is a defect of the specification (tool error)."""
+    out_dir = f"{OUT}/apalache"
+    res = []
+    for label, args in (("initiation", ["--init=Init", "--inv=IndInv", "--length=0"]),
+                        ("consecution", ["--init=IndInit", "--inv=IndInv", "--length=1"]),
+                        ("implies-safety", ["--init=IndInit", "--inv=Safety", "--length=0"])):
+        t0 = time.time()
+        r = sh(["apalache-mc", "check", "--cinit=ConstInit", f"--out-dir={out_dir}"] + args + [spec],
+               cwd=f"{SPEC}/apalache", timeout=timeout)
+        ok = "The outcome is: NoError" in r.stdout
+        if not ok:
+            log("\n".join(r.stdout.splitlines()[-25:]))
+            raise ToolError(f"Apalache: {label} of IndInv failed for {spec} (defect of the specification)")
+        res.append({"step": label, "wall_s": round(time.time() - t0, 1)})
+    shutil.rmtree(out_dir, ignore_errors=True)
+    return {"spec": spec, "steps": res}
+
+
 def bug_switch_check(name, module, cfg, switch, expect, timeout=300):
     """Anti-vacuity: with a named deviation switched on TLC must find a counterexample."""
     path = f"{SPEC}/{cfg}"
@@ -392,6 +413,8 @@ PROPS = {
     "C05": dict(
         design=[(CONC, ["MC_RainConc_small.cfg"], ["MC_RainConc_small.cfg"]),
                 ("MC_RainCache.tla", ["MC_RainCache_small.cfg"], ["MC_RainCache_big.cfg"])],
+        # thorough tier: unbounded number of opens / evictions / reads by an inductive invariant
+        apalache=["APA_RainCache.tla"],
         switches=[("Bug_GetLoadsMemAfterUnlock", CONC, "MC_RainConc_small.cfg", "Linearizable"),
                   ("Bug_PublishEarly", CONC, "MC_RainConc_small.cfg", "Linearizable"),
                   ("Bug_NewIdNotAtomic", "MC_RainCache.tla", "MC_RainCache_small.cfg", "UniqueIds"),
@@ -527,10 +550,20 @@ def check_prop(prop, tier, seed):
         switches.append(r)
         log(f"[{prop}] switch {sw}: {r['found']} ({r['wall_s']}s)")
 
+    inductive = []
+    if tier == "thorough":
+        for spec in conf.get("apalache", []):
+            r = apalache_inductive(spec)
+            inductive.append(r)
+            log(f"[{prop}] Apalache: IndInv of {spec} is inductive and implies Safety "
+                f"({sum(x['wall_s'] for x in r['steps']):.0f}s)")
+
     # (B) drive the real code, validate traces
     nproc = min(12, NCPU)
     recs = []
     extra = {}
+    if inductive:
+        extra["apalache_inductive_invariants"] = inductive
     groups = {}
     for wi, w in enumerate(conf["work"]):
         runs = w[tier]
